@@ -121,8 +121,8 @@ Ltac break_step :=
   | |- context [if ?b then _ else _] => destruct b eqn:?
   end.
 
-Ltac sset := cbn [issued tokens vip txs approved chal last_totp boot proved spent now fresh
-                  set_ghost set_issued set_chal set_boot set_totp fst snd cuser clevel ciat cexp].
+Ltac sset := cbn [issued tokens vip txs approved chal last_totp boot proved spent now fresh minted
+                  set_ghost set_issued set_chal set_boot set_totp mint fst snd cuser clevel ciat cexp].
 Ltac mono s := apply (Inv_mono s); sset; auto using incl_refl, incl_tl, N.le_refl, Z.le_refl; try lia.
 
 Ltac clean :=
@@ -396,7 +396,7 @@ Ltac mono2 s := apply (Inv2_mono s); sset; auto; try lia.
 
 (* a new pending challenge with a fresh identifier *)
 Lemma Inv2_new_chal s u w e :
-  Inv2 s -> Inv2 (set_chal s (upd (chal s) u (Some {| chid := fresh s; ch_wa := w; chexp := e |})) (fresh s + 1)).
+  Inv2 s -> Inv2 (mint (set_chal s (upd (chal s) u (Some {| chid := fresh s; ch_wa := w; chexp := e |})) (fresh s))).
 Proof.
   intros [J0 [J1 [J2 [J3 [J4 [J5 J6]]]]]]. unfold Inv2; sset. repeat split; auto.
   - intros u0 n H. specialize (J2 u0 n H). lia.
@@ -444,7 +444,7 @@ Proof.
 Qed.
 
 Lemma Inv2_new_boot s u e :
-  Inv2 s -> Inv2 (set_boot s (upd (boot s) u (Some {| bserial := fresh s; bexp := e |})) (fresh s + 1)).
+  Inv2 s -> Inv2 (mint (set_boot s (upd (boot s) u (Some {| bserial := fresh s; bexp := e |})) (fresh s))).
 Proof.
   intros [J0 [J1 [J2 [J3 [J4 [J5 J6]]]]]]. unfold Inv2; sset. repeat split; auto.
   - intros u0 n H. specialize (J2 u0 n H). lia.
@@ -501,8 +501,8 @@ Qed.
 Lemma Inv2_irrelevant s iss p : Inv2 s -> Inv2 (set_ghost (set_issued s iss) p (spent s)).
 Proof. intros H. mono2 s. Qed.
 
-Ltac sset_all := cbn [issued tokens vip txs approved chal last_totp boot proved spent now fresh
-                      set_ghost set_issued set_chal set_boot set_totp fst snd cuser clevel] in *.
+Ltac sset_all := cbn [issued tokens vip txs approved chal last_totp boot proved spent now fresh minted
+                      set_ghost set_issued set_chal set_boot set_totp mint fst snd cuser clevel] in *.
 
 (* goal: Inv2 (set_ghost s2 _ (V :: spent s2)) with s2 out of an upgrade of s1; R is the reference
    state the Inv2_use_* lemma speaks about *)
@@ -566,6 +566,199 @@ Theorem run_Inv2 k ops : totp_monotone k = true -> chal_delete_wa k = true -> In
 Proof.
   intros Hm Hd. rewrite run_fst_step. generalize Inv2_init. generalize init.
   induction ops as [|o r IH]; intros s HJ; [exact HJ|]. cbn [fold_left]. apply IH. apply step_Inv2; assumption.
+Qed.
+
+
+Lemma upgrade_minted k s u cs lvl s2 out : upgrade k s u cs lvl = (s2, out) -> minted s2 = minted s.
+Proof.
+  unfold upgrade. destruct (pick_sel (upg_last k) (attached s cs)) as [c|]; [|intros H; inversion H; subst; reflexivity].
+  destruct (upgrade_checks_owner k && negb (N.eqb (cuser c) u)); intros H; inversion H; subst; reflexivity.
+Qed.
+
+(* ---------------------------------------------------------------- one-time values are fresh *)
+(* `minted` is the list of the ids of all one-time values ever handed out.  A begin / issue / push
+   start hands out `fresh s`; everything handed out before is smaller: the new value was never
+   handed out before, is not pending for anybody and was never accepted *)
+Definition spent_minted (s : st) (v : onetime) : Prop :=
+  match v with OtChal i => In i (minted s) | OtBoot _ n => In n (minted s) | OtTotp _ _ => True end.
+
+Definition Inv3 (s : st) : Prop :=
+  NoDup (minted s) /\
+  (forall i, In i (minted s) -> (i < fresh s)%N) /\
+  (forall u ch, chal s u = Some ch -> In (chid ch) (minted s)) /\
+  (forall u b, boot s u = Some b -> In (bserial b) (minted s)) /\
+  (forall e, In e (txs s) -> In (fst e) (minted s)) /\
+  (forall v, In v (spent s) -> spent_minted s v).
+
+Lemma Inv3_init : Inv3 init.
+Proof.
+  unfold Inv3, init; cbn. repeat split; try (intros; contradiction); try (intros; discriminate). constructor.
+Qed.
+
+Lemma fresh_not_minted s : Inv3 s -> ~ In (fresh s) (minted s).
+Proof. intros [_ [H _]] Hin. specialize (H _ Hin). lia. Qed.
+
+(* what a newly accepted one-time value must be: the pending challenge / stored OTP of somebody *)
+Definition spent_src (s : st) (v : onetime) : Prop :=
+  match v with
+  | OtChal i => exists u ch, chal s u = Some ch /\ chid ch = i
+  | OtBoot _ n => exists u b, boot s u = Some b /\ bserial b = n
+  | OtTotp _ _ => True
+  end.
+
+(* a step that hands nothing out *)
+Lemma Inv3_same s s' :
+  Inv3 s -> minted s' = minted s -> (fresh s <= fresh s')%N ->
+  (forall u ch, chal s' u = Some ch -> exists u', chal s u' = Some ch) ->
+  (forall u b, boot s' u = Some b -> exists u', boot s u' = Some b) ->
+  txs s' = txs s ->
+  (forall v, In v (spent s') -> In v (spent s) \/ spent_src s v) ->
+  Inv3 s'.
+Proof.
+  intros [K0 [K1 [K2 [K3 [K4 K5]]]]] Hm Hf Hc Hb Ht Hs. unfold Inv3. rewrite Hm, Ht.
+  split; [exact K0|]. split; [intros i Hi; specialize (K1 i Hi); lia|].
+  split; [intros u ch H; destruct (Hc u ch H) as [u' H']; exact (K2 u' ch H')|].
+  split; [intros u b H; destruct (Hb u b H) as [u' H']; exact (K3 u' b H')|].
+  split; [exact K4|].
+  intros v Hv. assert (G : spent_minted s v).
+  { destruct (Hs v Hv) as [Hold|Hnew]; [exact (K5 v Hold)|].
+    destruct v as [u t|u n|i]; cbn in *; [exact I| |].
+    - destruct Hnew as [u' [b [H1 H2]]]. subst n. exact (K3 u' b H1).
+    - destruct Hnew as [u' [ch [H1 H2]]]. subst i. exact (K2 u' ch H1). }
+  destruct v; cbn in *; try rewrite Hm; exact G.
+Qed.
+
+(* a step that hands out the value `fresh s` *)
+Lemma Inv3_mint s s' :
+  Inv3 s -> minted s' = fresh s :: minted s -> fresh s' = (fresh s + 1)%N ->
+  (forall u ch, chal s' u = Some ch -> (exists u', chal s u' = Some ch) \/ chid ch = fresh s) ->
+  (forall u b, boot s' u = Some b -> (exists u', boot s u' = Some b) \/ bserial b = fresh s) ->
+  (forall e, In e (txs s') -> In e (txs s) \/ fst e = fresh s) ->
+  spent s' = spent s ->
+  Inv3 s'.
+Proof.
+  intros HK Hm Hf Hc Hb Ht Hs. pose proof (fresh_not_minted s HK) as Hnew.
+  destruct HK as [K0 [K1 [K2 [K3 [K4 K5]]]]]. unfold Inv3. rewrite Hm, Hf, Hs.
+  split; [constructor; assumption|].
+  split; [intros i [<-|Hi]; [lia|specialize (K1 i Hi); lia]|].
+  split; [intros u ch H; destruct (Hc u ch H) as [[u' H']|E]; [right; exact (K2 u' ch H')|left; symmetry; exact E]|].
+  split; [intros u b H; destruct (Hb u b H) as [[u' H']|E]; [right; exact (K3 u' b H')|left; symmetry; exact E]|].
+  split; [intros e H; destruct (Ht e H) as [H'|E]; [right; exact (K4 e H')|left; symmetry; exact E]|].
+  intros v Hv. specialize (K5 v Hv). destruct v; cbn in *; try rewrite Hm; try (right; exact K5); exact K5.
+Qed.
+
+Lemma upd_some_src {A} (m : N -> option A) u (x : option A) u0 a :
+  upd m u x u0 = Some a -> (exists u', m u' = Some a) \/ x = Some a.
+Proof.
+  unfold upd. destruct (N.eqb u0 u); intros H; [right; exact H|left; exists u0; exact H].
+Qed.
+
+Ltac inv3_same s :=
+  apply (Inv3_same s); sset; auto using N.le_refl; try lia;
+  try (intros ? ? H; eexists; exact H).
+
+(* goal: Inv3 of a state that comes out of an upgrade, nothing handed out *)
+Ltac inv3_up s HK :=
+  match goal with HU : upgrade _ _ _ _ _ = (_, _) |- _ =>
+    let F := fresh "F" in let G := fresh "G" in
+    pose proof (upgrade_fields _ _ _ _ _ _ _ HU) as F; pose proof (upgrade_minted _ _ _ _ _ _ _ HU) as G; sset_all;
+    destruct F as [_ [_ [F3 [_ [F5 [_ [F7 [_ [F9 [_ F11]]]]]]]]]];
+    apply (Inv3_same s); sset;
+    [ exact HK
+    | congruence
+    | rewrite F11; apply N.le_refl
+    | let H := fresh "H" in intros ? ? H; rewrite F5 in H;
+      first [ apply upd_some_src in H; destruct H as [H|H]; [exact H|discriminate] | eexists; exact H ]
+    | let H := fresh "H" in intros ? ? H; rewrite F7 in H;
+      first [ apply upd_some_src in H; destruct H as [H|H]; [exact H|discriminate] | eexists; exact H ]
+    | congruence
+    | let Hv := fresh "Hv" in intros ? Hv;
+      first [ rewrite F9 in Hv; now left
+            | destruct Hv as [<-|Hv];
+              [ right; cbn; first [exact I | eexists; eexists; split; [eassumption|reflexivity]]
+              | rewrite F9 in Hv; now left ] ] ]
+  end.
+
+Lemma step_req_Inv3 k cert fault s o : Inv3 s -> Inv3 (fst (step_req k cert fault s o)).
+Proof.
+  intros HK. destruct o; cbn [step_req]; try exact HK.
+  - (* Login *) break_step; sset; exact HK.
+  - (* VipOtp *) break_step; sset; try exact HK. inv3_up s HK.
+  - (* PushStart *)
+    break_step; sset; try exact HK.
+    apply (Inv3_mint s); sset; auto.
+    + intros u0 ch H. left. eexists; exact H.
+    + intros u0 b H. left. eexists; exact H.
+    + intros e [<-|He]; [right; reflexivity|now left].
+  - (* Approve *) break_step; sset; exact HK.
+  - (* Poll *) break_step; sset; try exact HK; inv3_up s HK.
+  - (* Totp *) break_step; sset; try exact HK. inv3_up s HK.
+  - (* U2fBegin *)
+    break_step; sset; try exact HK.
+    apply (Inv3_mint s); sset; auto.
+    + intros u0 ch H. apply upd_some_src in H. destruct H as [H|H]; [now left|right]. inversion H; reflexivity.
+    + intros u0 b H. left. eexists; exact H.
+  - (* U2fFinish *)
+    break_step; sset; try exact HK; (destruct (a_wa_key a); [destruct (chal_delete_wa k)|]); inv3_up s HK.
+  - (* WaBegin *)
+    break_step; sset; try exact HK.
+    apply (Inv3_mint s); sset; auto.
+    + intros u0 ch H. apply upd_some_src in H. destruct H as [H|H]; [now left|right]. inversion H; reflexivity.
+    + intros u0 b H. left. eexists; exact H.
+  - (* WaFinish *) break_step; sset; try exact HK; inv3_up s HK.
+  - (* IssueOtp *)
+    break_step; sset; try exact HK;
+    (apply (Inv3_mint s); sset; auto;
+     [ intros u0 ch H; left; eexists; exact H
+     | intros u0 b H; apply upd_some_src in H; destruct H as [H|H]; [now left|right]; inversion H; reflexivity ]).
+  - (* Bootstrap *) break_step; sset; try exact HK. clean; subst. inv3_up s HK.
+  - (* ShowTok *) break_step; sset; exact HK.
+  - (* SendDoc *) break_step; sset; exact HK.
+Qed.
+
+Lemma step_Inv3 k s o : Inv3 s -> Inv3 (fst (step k s o)).
+Proof.
+  intros HK. destruct o; try (apply (step_req_Inv3 k None false s _ HK)).
+  cbn [step]. apply step_req_Inv3. destruct cert; exact HK.
+Qed.
+
+Theorem run_Inv3 k ops : Inv3 (fst (run k init ops)).
+Proof.
+  rewrite run_fst_step. generalize Inv3_init. generalize init.
+  induction ops as [|o r IH]; intros s HK; [exact HK|]. cbn [fold_left]. apply IH. apply step_Inv3; assumption.
+Qed.
+
+(* what a step hands out *)
+Lemma step_req_minted k cert fault s o :
+  let s' := fst (step_req k cert fault s o) in
+  minted s' = minted s \/ (minted s' = fresh s :: minted s /\ fresh s' = (fresh s + 1)%N).
+Proof.
+  destruct o; cbn [step_req]; try (left; reflexivity);
+  break_step; sset; try (left; reflexivity); try (right; split; reflexivity);
+  match goal with HU : upgrade _ _ _ _ _ = (_, _) |- _ =>
+    pose proof (upgrade_minted _ _ _ _ _ _ _ HU) as G end; sset_all;
+  try (destruct (a_wa_key a); [destruct (chal_delete_wa k)|]); sset_all; left; exact G.
+Qed.
+
+Lemma step_minted k s o :
+  let s' := fst (step k s o) in
+  minted s' = minted s \/ (minted s' = fresh s :: minted s /\ fresh s' = (fresh s + 1)%N).
+Proof.
+  destruct o; try (apply (step_req_minted k None false s)).
+  cbn [step]. pose proof (step_req_minted k cert fault (present_cert s cert) o) as H.
+  destruct cert; exact H.
+Qed.
+
+(* the value a step hands out (observation `handed`) was never handed out before *)
+Lemma handed_fresh k s o i :
+  Inv3 s -> handed s (fst (step k s o)) = Some i ->
+  i = fresh s /\ ~ In i (minted s) /\ minted (fst (step k s o)) = i :: minted s.
+Proof.
+  intros HK. unfold handed. destruct (step_minted k s o) as [E|[E _]]; rewrite E.
+  - destruct (minted s); [discriminate|]. rewrite Nat.eqb_refl. discriminate.
+  - cbn [length]. replace (Nat.eqb (S (length (minted s))) (length (minted s))) with false
+      by (symmetry; apply Nat.eqb_neq; lia).
+    intros H; inversion H; subst i. split; [reflexivity|]. split; [apply fresh_not_minted, HK|reflexivity].
 Qed.
 
 (* the request proper inside a wrapper *)
@@ -895,3 +1088,109 @@ Proof. destruct o; cbn [requester]; rewrite ?auth_present; reflexivity. Qed.
 
 Lemma about_present k s c o : about k (present_cert s c) o = about k s o.
 Proof. destruct c; reflexivity. Qed.
+
+(* ---------------------------------------------------------------- the expiry of a one-time value is fixed when it is handed out *)
+(* how a request changes the pending challenges / stored bootstrap OTPs: not at all, one deleted, or
+   one replaced by a value with the new id `fresh s` *)
+Lemma step_req_chal k cert fault s o :
+  let s' := fst (step_req k cert fault s o) in
+  chal s' = chal s \/ (exists u, chal s' = upd (chal s) u None) \/
+  (exists u w e, chal s' = upd (chal s) u (Some {| chid := fresh s; ch_wa := w; chexp := e |})).
+Proof.
+  destruct o; cbn [step_req]; try (left; reflexivity);
+  break_step; sset; try (left; reflexivity);
+  try (right; right; eexists; eexists; eexists; reflexivity);
+  match goal with HU : upgrade _ _ _ _ _ = (_, _) |- _ =>
+    destruct (upgrade_fields _ _ _ _ _ _ _ HU) as [_ [_ [_ [_ [F5 _]]]]] end; sset_all;
+  try (destruct (a_wa_key a); [destruct (chal_delete_wa k)|]); sset_all; rewrite F5;
+  first [left; reflexivity | right; left; eexists; reflexivity].
+Qed.
+
+Lemma step_req_boot k cert fault s o :
+  let s' := fst (step_req k cert fault s o) in
+  boot s' = boot s \/ (exists u, boot s' = upd (boot s) u None) \/
+  (exists u e, boot s' = upd (boot s) u (Some {| bserial := fresh s; bexp := e |})).
+Proof.
+  destruct o; cbn [step_req]; try (left; reflexivity);
+  break_step; sset; try (left; reflexivity);
+  try (right; right; eexists; eexists; reflexivity);
+  match goal with HU : upgrade _ _ _ _ _ = (_, _) |- _ =>
+    destruct (upgrade_fields _ _ _ _ _ _ _ HU) as [_ [_ [_ [_ [_ [_ [F7 _]]]]]]] end; sset_all;
+  try (destruct (a_wa_key a); [destruct (chal_delete_wa k)|]); sset_all; rewrite F7;
+  first [left; reflexivity | right; left; eexists; reflexivity].
+Qed.
+
+(* a challenge that is pending after a request under the id of a challenge that was pending before
+   it IS that challenge: same user, same expiry, same kind — no request re-stamps a pending value *)
+Lemma chal_fixed_req k cert fault s o u ch u' ch' :
+  Inv2 s -> Inv3 s ->
+  chal s u = Some ch -> chal (fst (step_req k cert fault s o)) u' = Some ch' -> chid ch' = chid ch ->
+  u' = u /\ ch' = ch.
+Proof.
+  intros [_ [_ [_ [_ [_ [_ J6]]]]]] HK Hc Hc' Hid.
+  assert (Hold : chal s u' = Some ch' -> u' = u /\ ch' = ch).
+  { intros H. assert (u' = u) by (eapply J6; eauto). subst u'. split; [reflexivity|congruence]. }
+  destruct (step_req_chal k cert fault s o) as [E|[[x E]|[x [w [e E]]]]]; rewrite E in Hc'.
+  - apply Hold, Hc'.
+  - unfold upd in Hc'. destruct (N.eqb u' x); [discriminate|]. apply Hold, Hc'.
+  - unfold upd in Hc'. destruct (N.eqb u' x); [|apply Hold, Hc'].
+    inversion Hc'; subst ch'. cbn in Hid. destruct HK as [_ [K1 [K2 _]]].
+    specialize (K1 _ (K2 u ch Hc)). lia.
+Qed.
+
+Lemma boot_fixed_req k cert fault s o u b b' :
+  Inv3 s -> boot s u = Some b -> boot (fst (step_req k cert fault s o)) u = Some b' -> bserial b' = bserial b -> b' = b.
+Proof.
+  intros HK Hb Hb' Hid.
+  destruct (step_req_boot k cert fault s o) as [E|[[x E]|[x [e E]]]]; rewrite E in Hb'.
+  - congruence.
+  - unfold upd in Hb'. destruct (N.eqb u x); [discriminate|congruence].
+  - unfold upd in Hb'. destruct (N.eqb u x); [|congruence].
+    inversion Hb'; subst b'. cbn in Hid. destruct HK as [_ [K1 [_ [K3 _]]]].
+    specialize (K1 _ (K3 u b Hb)). lia.
+Qed.
+
+Lemma present_cert_fields s c :
+  chal (present_cert s c) = chal s /\ boot (present_cert s c) = boot s /\ minted (present_cert s c) = minted s /\
+  fresh (present_cert s c) = fresh s /\ txs (present_cert s c) = txs s /\ last_totp (present_cert s c) = last_totp s.
+Proof. destruct c; repeat split; reflexivity. Qed.
+
+Lemma Inv2_present s c : Inv2 s -> Inv2 (present_cert s c).
+Proof. intros H. destruct c; [|exact H]. cbn [present_cert]. mono2 s. Qed.
+
+Lemma Inv3_present s c : Inv3 s -> Inv3 (present_cert s c).
+Proof. intros H. destruct c; exact H. Qed.
+
+Lemma chal_fixed k s o u ch u' ch' :
+  Inv2 s -> Inv3 s ->
+  chal s u = Some ch -> chal (fst (step k s o)) u' = Some ch' -> chid ch' = chid ch -> u' = u /\ ch' = ch.
+Proof.
+  intros HJ HK. rewrite step_unfold. intros Hc. apply chal_fixed_req.
+  - apply Inv2_present, HJ.
+  - apply Inv3_present, HK.
+  - destruct (present_cert_fields s (cert_of o)) as [E _]. rewrite E. exact Hc.
+Qed.
+
+Lemma boot_fixed k s o u b b' :
+  Inv3 s -> boot s u = Some b -> boot (fst (step k s o)) u = Some b' -> bserial b' = bserial b -> b' = b.
+Proof.
+  intros HK. rewrite step_unfold. intros Hb. apply boot_fixed_req.
+  - apply Inv3_present, HK.
+  - destruct (present_cert_fields s (cert_of o)) as [_ [E _]]. rewrite E. exact Hb.
+Qed.
+
+(* the value a step hands out is new in every respect: never handed out, not pending, never accepted *)
+Lemma handed_new k s o i :
+  Inv3 s -> handed s (fst (step k s o)) = Some i ->
+  ~ In i (minted s) /\ minted (fst (step k s o)) = i :: minted s /\
+  (forall u ch, chal s u = Some ch -> chid ch <> i) /\
+  (forall u b, boot s u = Some b -> bserial b <> i) /\
+  ~ In (OtChal i) (spent s) /\ (forall u, ~ In (OtBoot u i) (spent s)).
+Proof.
+  intros HK Hh. destruct (handed_fresh k s o i HK Hh) as [_ [Hn Hm]].
+  destruct HK as [_ [_ [K2 [K3 [_ K5]]]]].
+  split; [exact Hn|]. split; [exact Hm|].
+  split; [intros u ch H E; apply Hn; rewrite <- E; exact (K2 u ch H)|].
+  split; [intros u b H E; apply Hn; rewrite <- E; exact (K3 u b H)|].
+  split; [intros H; apply Hn; exact (K5 _ H)|intros u H; apply Hn; exact (K5 _ H)].
+Qed.
